@@ -62,14 +62,14 @@ def observable_delay_timespan(
                     active[0] = True
 
             if should_run:
-                if exception:
+                if exception is not None:
                     observer.on_error(exception)
                 else:
                     mad = MultipleAssignmentDisposable()
                     cancelable.disposable = mad
 
                     def action(scheduler: abc.SchedulerBase, state: Any = None):
-                        if exception:
+                        if exception is not None:
                             return
 
                         with source.lock:
@@ -97,7 +97,7 @@ def observable_delay_timespan(
                             ex = exception
                             running[0] = False
 
-                        if ex:
+                        if ex is not None:
                             observer.on_error(ex)
                         elif should_continue:
                             mad.disposable = scheduler.schedule_relative(
